@@ -86,8 +86,9 @@ func runC20(r *rng) (string, string) {
 		}
 	}()
 	sp.waitSlotsLoaded(1)
-	time.Sleep(20 * time.Millisecond)
+	waitFor(2*time.Second, func() bool { return sp.counter("downstream.cx_destroy_total") >= 1 }) // the launcher's probe
 	var open []*simClient
+	finished := 1 // connections that have ended so far (the probe)
 	ask := func(sc *simClient, v *wv) (string, bool) { // returns s|f, alive
 		if sc.send(v.bytes(), nil) != nil {
 			return "", false
@@ -120,7 +121,8 @@ func runC20(r *rng) (string, string) {
 				open[i].close()
 				open = append(open[:i], open[i+1:]...)
 				events = append(events, "x")
-				time.Sleep(25 * time.Millisecond)
+				finished++
+				waitFor(2*time.Second, func() bool { return sp.counter("downstream.cx_destroy_total") >= uint64(finished) })
 			}
 		case 3:
 			x := r.intn(n)
@@ -153,7 +155,7 @@ func runC20(r *rng) (string, string) {
 				delete(down, x)
 				cl.nodes[x].start()
 			}
-			time.Sleep(30 * time.Millisecond)
+			settle(30 * time.Millisecond)
 		default:
 			if len(open) == 0 {
 				continue
@@ -203,7 +205,10 @@ func runC20(r *rng) (string, string) {
 			events = append(events, "x")
 		}
 	}
-	time.Sleep(80 * time.Millisecond)
+	// quiescence: every connection the proxy registered has been accounted as ended
+	waitFor(3*time.Second, func() bool {
+		return sp.gauge("downstream.cx_active") == 0 && sp.counter("downstream.cx_total") == sp.counter("downstream.cx_destroy_total")
+	})
 	return strings.Join(events, " "), sp.snapshot()
 }
 
